@@ -11,9 +11,9 @@ Open Scope string_scope.
 Inductive site_class :=
   | SortedBeforeEmit      (* collected into a Vec and sorted by key before anything is emitted: c13_render_order_independent /
                              c13_cert_order_independent *)
-  | MapIntoMap            (* a map's entries are inserted into another map that is only ever looked up by key: the order
-                             matters only when two providers report the same key (MultiSymbolProvider: one provider
-                             reports stats; single-provider Symbolizer stats are c13_stats_independent) *)
+  | MapIntoMap            (* a map's entries are inserted into another map that is only ever looked up by key: the iteration
+                             order of each provider's map is irrelevant, the last provider (Vec order) that has the key wins:
+                             c13_multi_provider_stats_order_independent (single-provider Symbolizer stats: c13_stats_independent) *)
   | SetBeforeUse          (* a thread_local cell that every printer sets from the report itself (set_print_context, first
                              statement of print_internal / print_json) before the only reader (Display for Address) can run in
                              the same synchronous call: no value survives from one report to the next *)
